@@ -44,6 +44,7 @@ type Opts struct {
 	WebhookCmds      []string // extra mock webhook commands (e.g. casevariant)
 	SubflowHeavy     bool     // many enter_flow actions (several per node, missing and wrong-type targets)
 	NoRandom         bool     // no random routers (outputs comparable across executions without a pinned random source)
+	NoGeneratedIDs   bool     // no templates that print engine-generated UUIDs (ticket UUIDs): for checks that cannot pin the UUID source
 	TranslateMissing bool     // translations of quick_replies/attachments that the base language lacks, referencing globals/fields
 }
 
@@ -129,6 +130,15 @@ var msgTemplates = []M{{
 		{"channel": M{"uuid": UUID("channel", 1), "name": "Android"}, "locale": "eng", "components": []M{{"name": "body", "type": "body/text", "content": "Hi {{1}}, who's an excellent {{2}}?", "variables": M{"1": 0, "2": 1}}}, "variables": []M{{"type": "text"}, {"type": "text"}}},
 		{"channel": M{"uuid": UUID("channel", 1), "name": "Android"}, "locale": "fra", "components": []M{{"name": "body", "type": "body/text", "content": "Salut {{1}}, qui est un excellent {{2}}?", "variables": M{"1": 0, "2": 1}}}, "variables": []M{{"type": "text"}, {"type": "text"}}},
 	},
+}, {
+	"uuid": UUID("template", 2), "name": "promo",
+	"translations": []M{
+		{"channel": M{"uuid": UUID("channel", 1), "name": "Android"}, "locale": "eng", "components": []M{
+			{"name": "header", "type": "header/media", "content": "{{1}}{{2}}", "variables": M{"1": 0, "2": 1}},
+			{"name": "body", "type": "body/text", "content": "{{3}} and {{4}} and {{5}}", "variables": M{"3": 2, "4": 3, "5": 4}},
+			{"name": "button.0", "type": "button/quick_reply", "content": "{{6}}", "variables": M{"6": 5}},
+		}, "variables": []M{{"type": "image"}, {"type": "video"}, {"type": "text"}, {"type": "text"}, {"type": "text"}, {"type": "text"}}},
+	},
 }}
 
 func ref(m M, keys ...string) M {
@@ -173,7 +183,11 @@ func (g *gen) template() string {
 	if g.o.WebhookRefs && k == 9 {
 		return rapid.SampledFrom([]string{"@webhook.status", "@webhook.json.name", "@(webhook.json.items[0])", "@legacy_extra.name"}).Draw(g.t, "whtpl")
 	}
-	return rapid.SampledFrom(pool).Draw(g.t, "tpl")
+	tpl := rapid.SampledFrom(pool).Draw(g.t, "tpl")
+	if g.o.NoGeneratedIDs && (tpl == "@contact.tickets" || tpl == "@(json(contact))") {
+		return "Hi there"
+	}
+	return tpl
 }
 
 // ---------------------------------------------------------------------------------------------------------------
@@ -281,6 +295,11 @@ func (g *gen) action(flowType string, flowUUIDs []string, flowNames []string) M 
 		if rapid.IntRange(0, 9).Draw(g.t, "tpl") == 0 {
 			a["template"] = M{"uuid": UUID("template", 1), "name": "affirmation"}
 			a["template_variables"] = []string{"@contact.name", g.template()}
+			if rapid.Bool().Draw(g.t, "promo") {
+				// variable values that themselves look like placeholders: the outcome must not depend on substitution order
+				a["template"] = M{"uuid": UUID("template", 2), "name": "promo"}
+				a["template_variables"] = []string{"image/jpeg:http://mock/a.jpg", "video/mp4:http://mock/b.mp4", rapid.SampledFrom([]string{"{{4}}", "three", "{{5}}"}).Draw(g.t, "tv3"), "@contact.name", rapid.SampledFrom([]string{"{{3}}", "five"}).Draw(g.t, "tv5"), g.template()}
+			}
 		}
 		if a["text"] == "" {
 			a["text"] = "hi"
